@@ -23,7 +23,8 @@ LIBDIR = os.path.join(fw.REPO_SRC, 'numdifftools')
 # configuration pool: (fname, method, n, order, gen)
 POOL = [('exp', 'central', 1, 2, 'default'), ('exp', 'central', 1, 4, 'default'), ('exp', 'central', 2, 2, 'default'),
         ('exp', 'forward', 1, 2, 'default'), ('exp', 'complex', 3, 2, 'default'), ('exp', 'central', 1, 4, 'ratio3')]
-XS = [0.5, 2.0, [0.5, 2.0]]
+XS = [0.5, 2.0, [0.5, 2.0], [30.0, 0.5]]
+BUF_XI = (2, 3)     # array points that are also presented through one persistent, in-place updated ndarray
 SLOTS = ['A', 'B']
 N_ALT, O_ALT, M_ALT = [1, 2, 3], [2, 4], ['central', 'forward']
 
@@ -69,6 +70,7 @@ class World(object):
         self.orig = {s: None for s in SLOTS}
         self.gen = {s: None for s in SLOTS}
         self.shared = {'max': MaxStepGenerator(), 'min': MinStepGenerator()}
+        self.buf = np.zeros(2)
         self.mod = [copy.deepcopy(p) for p in ms.pristine]
 
     def load(self, ms):
@@ -81,7 +83,7 @@ class World(object):
 
     def digest(self):
         from mc.engine_states import digest
-        return digest(self.slots, self.orig, self.gen, self.shared, self.mod)
+        return digest(self.slots, self.orig, self.gen, self.shared, self.mod, self.buf)
 
 
 def _assign(c, p):
@@ -112,6 +114,8 @@ def enabled_ops(world, hist):
             continue
         for xi in range(len(XS)):
             ops.append(('call', s, xi))
+        for xi in BUF_XI:
+            ops.append(('callbuf', s, xi))
         for n in N_ALT:
             if n != obj.n:
                 ops.append(('set', s, 'n', n))
@@ -148,6 +152,10 @@ def apply_op(world, op, ms):
         elif kind == 'call':
             _, s, xi = op
             obs = ref.observe(world.slots[s], XS[xi])
+        elif kind == 'callbuf':
+            _, s, xi = op
+            world.buf[:] = XS[xi]          # the caller's array is updated in place and passed again
+            obs = ref.observe_array(world.slots[s], world.buf)
         elif kind == 'set':
             _, s, attr, v = op
             setattr(world.slots[s], attr, v)
@@ -212,7 +220,7 @@ def work_level(chunk, refs=None):
             obs = apply_op(w, op, ms)
             h2 = hist + [op]
             acc.count('transitions')
-            if op[0] == 'call':
+            if op[0] in ('call', 'callbuf'):
                 cfg = effective(w, op[1])
                 want = refs[ref_key(cfg, op[2])]
                 same = obs == want
